@@ -25,8 +25,9 @@ type c01Step struct {
 }
 
 type c01Snap struct {
-	At    string             `json:"at"` // "lock1" | "writable:<host>"
-	Nodes []fakes.NodeDigest `json:"nodes"`
+	At       string             `json:"at"` // "lock1" | "writable:<host>"
+	Nodes    []fakes.NodeDigest `json:"nodes"`
+	Registry []string           `json:"opt_registry"` // children of optimization_nodes at that moment
 }
 
 // c01observe turns the event log of one performSwitchover call into the step vocabulary of
@@ -210,8 +211,15 @@ func c01one(t *testing.T, out *verifh.Out, r *rand.Rand, dir string) {
 		re := ex + r.Intn(100-ex+1)
 		nd.Executed = fmt.Sprintf("%s%s:1-%d", base, um, ex)
 		nd.Retrieved = fmt.Sprintf("%s:1-%d", um, re)
-		if r.Intn(12) == 0 { // diverged replica
+		if r.Intn(8) == 0 { // diverged replica; half of them also miss some of the master's transactions (incomparable sets)
+			if r.Intn(2) == 0 {
+				nd.Executed = fmt.Sprintf("%s%s:1-90", base, um)
+				nd.Retrieved = fmt.Sprintf("%s:1-90", um)
+			}
 			nd.Executed += "," + foreign + ":1-3"
+		}
+		if r.Intn(5) == 0 { // SQL thread broken: what was downloaded is never applied, so this host can never catch up
+			nd.Repl.SQL, nd.Repl.SQLErrno = false, 1062
 		}
 		nd.LagWhenRunning = float64([]int{0, 0, 10, 59, 60, 61, 500}[r.Intn(7)])
 		nd.Repl.LogFile, nd.Repl.LogPos = "mysql-bin.000001", 1000
@@ -277,7 +285,7 @@ func c01one(t *testing.T, out *verifh.Out, r *rand.Rand, dir string) {
 		fault = map[string]any{"host": fh, "op": fo, "mode": fm, "nth": nth}
 	case 1:
 		// a node dies when a given statement kind first arrives anywhere
-		trigger := []string{"set_ro_super", "stop_io", "change_source", "reset_replica_all", "set_writable", "stop_replica"}[r.Intn(6)]
+		trigger := []string{"set_ro_super", "stop_io", "change_source", "reset_replica_all", "set_writable", "stop_replica", "gtid_executed", "set_online"}[r.Intn(8)]
 		victim := hosts[r.Intn(n)]
 		done := false
 		wd.OnStmt = func(host, op, arg string) {
@@ -317,7 +325,14 @@ func c01one(t *testing.T, out *verifh.Out, r *rand.Rand, dir string) {
 			prevStmt(host, op, arg)
 		}
 		if op == "set_writable" {
-			snaps = append(snaps, c01Snap{At: "writable:" + host, Nodes: wd.Digest()})
+			reg := []string{}
+			for p := range tree.Snapshot("optimization_nodes") {
+				if strings.HasPrefix(p, "optimization_nodes/") {
+					reg = append(reg, p[19:])
+				}
+			}
+			sort.Strings(reg)
+			snaps = append(snaps, c01Snap{At: "writable:" + host, Nodes: wd.Digest(), Registry: reg})
 		}
 	}
 	wd.TakeLog()
